@@ -1,0 +1,33 @@
+//go:build linux && !verif
+
+package container
+
+import "github.com/criyle/go-sandbox/pkg/unixsocket"
+
+// verification hooks are compiled to nothing unless the verif build tag is set
+
+const (
+	vpHostSendPre = iota + 1
+	vpHostSendPost
+	vpHostRecv
+	vpHostSelect
+	vpHostBrDone
+	vpHostBrCtx
+	vpHostBrResult
+	vpContSendPre
+	vpContSendPost
+	vpContRecv
+	vpContWaited
+	vpContDispatch
+	vpContStarted
+	vpContSelect
+	vpContBrDone
+	vpContBrKill
+	vpContBrExit
+)
+
+func verifPoint(id, arg int) {}
+
+func verifMsg(id int, r *reply, m *unixsocket.Msg) {}
+
+func verifErr(id int, err error) {}
